@@ -20,7 +20,14 @@ RULE = ('(map) random SelectorMap histories (insert/overwrite/pop/copy-then-dive
         'name a dotted suffix of another): after every registration every spelling of the universe and every spelling used before is '
         're-judged by the model through the routes, the store is compared with a model store. (const) constants under module paths '
         'sharing suffixes (gin.constant / constants_from_enum), read through %name in flat/block/list/scoped bindings, query_parameter '
-        'and get_bindings, before and after a later definition. SelectorMap values include falsy ones. '
+        'and get_bindings, before and after a later definition; names overlapping (one complete name a dotted suffix of another, '
+        'longer-first inside interactive mode), re-judged after clear_config() (keeps them) and clear_config(clear_constants=True). '
+        '(ref) in the history and methods families references @spelling (plain/evaluated/scoped) through every unambiguous spelling are '
+        'stored; after every later registration what repr / config_str / operative_config_str report for them must resolve (model and '
+        'gin itself) to the entry they were made to. (methods) classes of one fresh name under module paths sharing suffixes, each '
+        'with same-named registered methods (two registration styles): entries module.Class and module.Class.method written/read '
+        'through different spellings and routes, ambiguous Class.method, sections reported for them resolve and are shortest '
+        '(methods: Class.method at least). SelectorMap values include falsy ones. '
         'distinct = (kind, op-kind sequence shape, name-set suffix structure) / (write api, read api, spelling pair class)')
 TIERS = {
     'quick': {'workers': 8, 'cases': 2000, 'timeout': 600, 'exhaustive': False},
@@ -41,7 +48,14 @@ REQUIRED_BUCKETS = ['map:insert', 'map:overwrite', 'map:pop', 'map:copy', 'map:c
                     'hist:spelling-still-good', 'hist:exact-name-is-suffix-of-other', 'hist:unknown', 'hist:ambiguous',
                     'hist:object-spelling', 'hist:config-str-full-name-needed', 'hist:config-str-bare-name-suffices',
                     'const:define:constant', 'const:define:enum', 'const:unique', 'const:ambiguous', 'const:unknown',
-                    'const:spelling-became-ambiguous', 'const:falsy-value']
+                    'const:spelling-became-ambiguous', 'const:falsy-value',
+                    'const:name-suffix-of-earlier-constant', 'const:earlier-constant-suffix-of-name', 'const:clear-config-keeps',
+                    'const:clear-removes',
+                    'ref:written-spelling-still-good', 'ref:written-spelling-became-ambiguous', 'ref:written-spelling-moved-to-other-entry',
+                    'ref:reported-in-config-str', 'ref:reported-in-operative-config-str',
+                    'meth:style:method-with-class-module', 'meth:style:method-first-renamed-by-class', 'meth:write:method',
+                    'meth:write:class', 'meth:class-method-ambiguous', 'meth:section-class-method-not-unique',
+                    'meth:section-class-method-suffices']
 ORACLE_COUNTERS = ['oracle_evals', 'map_queries', 'api_roundtrips']
 ASSUMPTIONS = ['private _selector_tree/_selector_map are walked for the agreement invariant when present']
 ALPHA = ['a', 'b', 'c']
@@ -301,6 +315,11 @@ def setup(ctx):
   _FAMILY['fam'] = fam
   _FAMILY['cons'] = cons
 
+  # a holder of references (any parameter name): what a stored reference is *reported* as is judged after later registrations
+  def c8refs(**kw):
+    return kw
+  _FAMILY['refs'] = gin.external_configurable(c8refs, name='c8refs', module='c8')
+
 
 def spellings(full, allnames):
   """(unambiguous suffix spellings, ambiguous ones) of `full` w.r.t. the registered names."""
@@ -409,13 +428,16 @@ def probe_unknown(ctx, gin, sc, b, prm, pick=None):
 _SECTION = re.compile(r'^# Parameters for (.*):$', re.M)
 
 
-def check_sections(ctx, text, which, names, last, entries=None):
-  """The names config_str()/operative_config_str() report for the family whose complete names end in `.last`:
-  each resolves back to one entry and is the shortest suffix doing so."""
+def check_sections(ctx, text, which, names, last, entries=None, methods=()):
+  """The names config_str()/operative_config_str() report for the family whose complete names end in `.last` (a name or a
+  set of names): each resolves back to one entry and is the shortest suffix doing so.  `methods`: the complete names that
+  are methods; gin addresses a method by `Class.method` at least (the bare method name is refused by design), so for them
+  `Class.method` is accepted where the bare name would already be unique."""
   seen = []
+  lasts = {last} if isinstance(last, str) else set(last)
   for scoped in _SECTION.findall(text):
     sc, _, sel = scoped.rpartition('/')
-    if sel.split('.')[-1] != last:
+    if sel.split('.')[-1] not in lasts:
       continue
     ctx.bucket('api:%s-section' % which)
     r = models.resolve_suffix(names, sel)
@@ -424,7 +446,11 @@ def check_sections(ctx, text, which, names, last, entries=None):
       continue
     full = r[0]
     em = model_minimal(names, full)
-    if '.' not in em:
+    if full in methods:
+      if '.' not in em:
+        em = '.'.join(full.split('.')[-2:])
+      ctx.bucket('meth:section-class-method-suffices' if em.count('.') == 1 else 'meth:section-class-method-not-unique')
+    elif '.' not in em:
       ctx.bucket('hist:config-str-bare-name-suffices')
     if em != full:
       ctx.bucket('api:config-str-minimal-shorter-than-full')
@@ -436,6 +462,92 @@ def check_sections(ctx, text, which, names, last, entries=None):
   if entries is not None:
     ctx.check(len(seen) == len(set(seen)) and set(seen) <= set(entries), 'reported-name-resolves-to-other-entry',
               '%s: sections resolve to %r, entries are %r' % (which, seen, sorted(entries)))
+
+
+_REF = re.compile(r'^@(?:(.*)/)?([^/()\s]+?)(\(\))?$')
+_REFLINE = re.compile(r'^(?:[\w.]+\.)?c8refs\.(\w+) = (?:\\\n\s+)?(\S+)$', re.M)
+
+
+def partial_first(good, salt):
+  """Two of the unambiguous spellings (longest first in `good`): partial ones - only they can change their meaning later -
+  and the complete name now and then.  (Every stored reference costs a parse in each config_str.)"""
+  part = good[1:]
+  if not part or salt % 4 == 0:
+    part = good[:1] + part
+  return [part[(salt + i) % len(part)] for i in range(min(2, len(part)))]
+
+
+def hold_references(ctx, gin, held, tag, full, spells, salt, evaluable=True):
+  """Store `@spelling` (plain / evaluated / scoped, varied by `salt`) for every spelling in `spells` of the entry `full` in
+  the reference holder, one parameter each, and keep the reference objects."""
+  lines, new = [], []
+  for j, sp in enumerate(spells):
+    prm = 'r%s_%d' % (tag, j)
+    ev = evaluable and (salt + j) % 2 == 1
+    rsc = ['', 's', 's/t'][(salt + j) % 3] if (salt // 2 + j) % 2 else ''
+    lines.append('c8refs.%s = @%s%s%s' % (prm, rsc + '/' if rsc else '', sp, '()' if ev else ''))
+    new.append({'prm': prm, 'full': full, 'spelling': sp})
+  try:
+    gin.parse_config('\n'.join(lines) + '\n')
+    for h in new:
+      h['ref'] = gin.query_parameter('c8refs.' + h['prm'])
+  except Exception as e:  # pylint: disable=broad-except
+    ctx.check(False, 'unambiguous-spelling-rejected', 'references %r (every spelling resolves to %s alone) raised %s: %s' %
+              (lines, full, type(e).__name__, str(e)[:200]))
+    return
+  for h in new:
+    got = getattr(getattr(h['ref'], 'configurable', None), 'selector', None)
+    if ctx.check(got == full, 'spelling-dependent-read', 'reference @%s resolved to %r, model %s' % (h['spelling'], got, full)):
+      held.append(h)
+
+
+def judge_reported_reference(ctx, rep, h, names, label, where):
+  m = _REF.match(rep)
+  if not ctx.check(m is not None, 'reported-reference-does-not-resolve', '%s: %s reports the reference to %s (written @%s) as %r' %
+                   (label, where, h['full'], h['spelling'], rep)):
+    return
+  r = models.resolve_suffix(names, m.group(2))
+  ctx.count('oracle_evals')
+  ctx.check(r == [h['full']], 'reported-reference-resolves-to-other-entry' if len(r) == 1 else 'reported-reference-does-not-resolve',
+            '%s: %s reports the reference to %s (written @%s) as %r, which resolves to %r (registered %r)' %
+            (label, where, h['full'], h['spelling'], rep, r, sorted(names)))
+
+
+def check_held_references(ctx, gin, held, names, label, texts=(), reparse=False):
+  """The name under which a stored reference is reported (repr, config_str, operative_config_str) resolves back to the entry
+  the reference was made to, whatever has been registered since it was written.  (Only "resolves back" is demanded: gin keeps
+  the spelling as written while it still identifies the entry, so the reported name need not be the shortest.)"""
+  byprm = {h['prm']: h for h in held}
+  reps = {}
+  for h in held:
+    now = models.resolve_suffix(names, h['spelling'])
+    ctx.bucket('ref:written-spelling-still-good' if now == [h['full']] else
+               'ref:written-spelling-became-ambiguous' if len(now) > 1 else 'ref:written-spelling-moved-to-other-entry')
+    try:
+      reps[h['prm']] = repr(h['ref'])
+    except Exception as e:  # pylint: disable=broad-except
+      ctx.check(False, 'reported-reference-does-not-resolve', '%s: repr of the reference to %s raised %s: %s' %
+                (label, h['full'], type(e).__name__, str(e)[:200]))
+      continue
+    judge_reported_reference(ctx, reps[h['prm']], h, names, label, 'repr')
+  for which, text in texts:
+    for prm, val in _REFLINE.findall(text):
+      if prm in byprm:
+        ctx.bucket('ref:reported-in-' + which)
+        judge_reported_reference(ctx, val, byprm[prm], names, label, which)
+  if reparse and reps:
+    # ... and gin itself resolves the reported names to the same entries
+    order = sorted(reps)
+    try:
+      gin.parse_config(''.join('c8refs.z%s = %s\n' % (prm, reps[prm]) for prm in order))
+      got = {prm: gin.query_parameter('c8refs.z' + prm).configurable.selector for prm in order}
+    except Exception as e:  # pylint: disable=broad-except
+      ctx.check(False, 'reported-reference-does-not-resolve', '%s: the reported references %r do not parse back: %s: %s' %
+                (label, reps, type(e).__name__, str(e)[:200]))
+      return
+    for prm in order:
+      ctx.check(got[prm] == byprm[prm]['full'], 'reported-reference-resolves-to-other-entry',
+                '%s: the reference to %s is reported as %r, which gin resolves to %s' % (label, byprm[prm]['full'], reps[prm], got[prm]))
 
 
 def gen_api_case(rng):
@@ -607,7 +719,7 @@ class Member:
 def family_store(gin):
   from gin import config as gc
   cons = _FAMILY['cons'].selector
-  return {k: dict(v) for k, v in gc._CONFIG.items() if k[1] != cons}
+  return {k: dict(v) for k, v in gc._CONFIG.items() if k[1] not in (cons, 'c8.c8refs')}
 
 
 def read_good(ctx, gin, member, spelling, sc, route, store, label):
@@ -674,7 +786,7 @@ def run_history(ctx, case):
   gin.clear_config()
   _HOOK_PLAN[0] = _HOOK_PLAN[1] = None
   last = 'hh%d%s' % (next(_UNIQ), ctx.uid)
-  members, names, store, used = [], set(), {}, []
+  members, names, store, used, held = [], set(), {}, [], []
   shape = []
   for k, (mod, st) in enumerate(zip(case['mods'], case['steps'])):
     p = Member(gin, last, mod)
@@ -699,6 +811,8 @@ def run_history(ctx, case):
         ctx.bucket('hist:spelling-moved-to-other-entry')   # it now *is* the complete name of a later registration
         for route in ('query', 'get_bindings', 'call'):
           read_good(ctx, gin, byfull[r[0]], spell, sc, route, store, label + ' (spelling used before for %s)' % was)
+    # (a') every reference stored earlier is still reported under a name that resolves to the entry it was made to
+    check_held_references(ctx, gin, held, names, label)
     # (b) the whole universe of spellings, one route each
     sc, prm = st['scope'], st['param']
     qs = history_queries(names, last)
@@ -736,10 +850,23 @@ def run_history(ctx, case):
     for m in (members if final else [tgt]):
       ctx.bucket('hist:object-spelling')
       read_good(ctx, gin, m, 'x' * (k + st['ri']), sc, 'obj-bindings' if (st['ri'] + k) % 2 else 'obj-call', store, label)
+    # references to one member through every spelling that is unambiguous now (judged again after every later registration)
+    rt = members[(st['member'] + st['qi']) % len(members)]
+    hold_references(ctx, gin, held, str(k), rt.selector, partial_first(spellings(rt.selector, names)[0], st['qi']), st['qi'])
+    texts = []
     if final or k == 0:   # (k == 0: a single member, the bare name is the shortest)
-      check_sections(ctx, gin.config_str(), 'config-str', names, last, entries=list(store))
+      texts.append(('config-str', gin.config_str()))
+      check_sections(ctx, texts[-1][1], 'config-str', names, last, entries=list(store))
     if final:
-      check_sections(ctx, gin.operative_config_str(), 'operative-config-str', names, last)
+      try:
+        if st['qi'] % 2:     # the holder is used: the operative configuration reports the references too
+          _FAMILY['refs']()
+      except Exception as e:  # pylint: disable=broad-except
+        ctx.check(False, 'spelling-dependent-read', '%s: evaluating the stored references raised %s: %s' % (label, type(e).__name__, str(e)[:200]))
+      texts.append(('operative-config-str', gin.operative_config_str()))
+      check_sections(ctx, texts[-1][1], 'operative-config-str', names, last)
+    if texts:
+      check_held_references(ctx, gin, held, names, label + ' (reports)', texts=texts, reparse=final)
     shape.append((st['write'], st['read'], ws.count('.'), bool(sc)))
   ctx.fp('history', tuple(m.count('.') for m in case['mods']),
          sum(1 for a in names for b in names if a != b and b.endswith('.' + a)), tuple(shape))
@@ -748,19 +875,188 @@ def run_history(ctx, case):
 
 
 # ---------------------------------------------------------------------------
+# Classes of one (fresh) name under module paths sharing suffixes, each with registered methods of the same names: the
+# entries `module.Class` and `module.Class.method` obey the same suffix rule through every API, and so do the names
+# reported for them.  (One deviation by design, not judged: a method is never addressed by its bare name.)
+
+METH_STYLES = ['method-with-class-module', 'method-first-renamed-by-class']
+METH_ROUTES = ['query', 'get_bindings', 'call', 'call-via-class']
+# OFF: gin really fails here (reproducer /tmp/impl2/C08/defect_1.py; same mechanism as the known finding
+# C01 function-named-like-renamed-method...: the rename table is keyed by the method's OLD name).  Two classes of one Python
+# module, each with a same-named method registered before its class: both methods are first `<pymodule>.<method>`, every
+# wrapper looks that name up and finds only the LAST rename, so instances of the first class receive the bindings made for
+# the second class's method (`A.run.steps = 1; B.run.steps = 2` -> A().run() gets 2).  While off, only the first class of a
+# case registers its methods before the class; the later ones give the method the class's selector as module.
+ENABLE_METHOD_FIRST_FOR_SEVERAL_CLASSES = False
+
+
+def gen_methods_case(rng):
+  if rng.random() < 0.7:
+    mods = list(rng.choice(HIST_LAYOUTS))
+  else:
+    pool = ['.'.join(t) for d in (1, 2, 3) for t in itertools.product(['x', 'y', 'p'], repeat=d)]
+    mods = rng.sample(pool, rng.choice([2, 3]))
+  steps = [{'style': rng.choice(METH_STYLES), 'second': rng.random() < 0.4, 'on': rng.choice(['method', 'method', 'class', 'second']),
+            'member': rng.randrange(3), 'wi': rng.randrange(8), 'ri': rng.randrange(8), 'qi': rng.randrange(60),
+            'write': rng.choice(['str', 'tuple', 'text', 'block']), 'scope': rng.choice(['', '', 's', 's/t']),
+            'read': rng.choice(METH_ROUTES)} for _ in mods]
+  return {'kind': 'methods', 'mods': mods, 'steps': steps}
+
+
+def read_entry(ctx, gin, ent, spelling, sc, route, store, label):
+  """Read the entry `ent` (a class or one of its methods) through the unambiguous `spelling`; expectation from the model store."""
+  pre = sc + '/' if sc else ''
+  full, prm = ent['full'], ent['prm']
+  own = store.get((sc, full), {})
+  over = models.overlay(store, full, sc.split('/') if sc else [])
+  exp = over.get(prm, 'dflt')
+  ctx.count('api_roundtrips')
+  try:
+    if route == 'query':
+      try:
+        got = ('ok', gin.query_parameter(pre + spelling + '.' + prm))
+      except Exception:  # pylint: disable=broad-except
+        got = ('raised',)
+      exp = ('ok', own[prm]) if prm in own else ('raised',)
+      ok = got[0] == exp[0] and (got[0] == 'raised' or teq(got[1], exp[1]))
+    elif route == 'get_bindings':
+      got, exp = gin.get_bindings(pre + spelling, resolve_references=False), over
+      ok = teq_unordered_dict(got, exp)
+    elif ent['method'] is None:
+      with scope_ctx(gin, sc if route == 'call-via-class' else ''):
+        got = gin.get_configurable((pre if route == 'call' else '') + spelling)().c
+      ok = teq(got, exp)
+    elif route == 'call':       # the method's own configurable, through the spelling, on a plain instance
+      got = gin.get_configurable(pre + spelling)(ent['cls']())
+      ok = teq(got, exp)
+    else:                       # an instance made by the class's configurable; the method called inside the scope
+      inst = gin.get_configurable(ent['cls'])()
+      with scope_ctx(gin, sc):
+        got = getattr(inst, ent['method'])()
+      ok = teq(got, exp)
+    ctx.check(ok, 'spelling-dependent-read', '%s: %s through %r (= %s, scope %r) -> %r, model %r' % (label, route, spelling, full, sc, got, exp))
+  except Exception as e:  # pylint: disable=broad-except
+    ctx.check(False, 'unambiguous-spelling-rejected', '%s: %s through %r (= %s, its only match) raised %s: %s' %
+              (label, route, spelling, full, type(e).__name__, str(e)[:200]))
+
+
+def run_methods(ctx, case):
+  import gin
+  gin.clear_config()
+  _HOOK_PLAN[0] = _HOOK_PLAN[1] = None
+  u = '%d%s' % (next(_UNIQ), ctx.uid)
+  cname, mname, m2 = 'CW8' + u, 'mm8' + u, 'nn8' + u   # (minus the first letter still identifiers, see history_queries)
+  names, methods, entries, store, held, shape = set(), set(), {}, {}, [], []
+  for k, (mod, st) in enumerate(zip(case['mods'], case['steps'])):
+    g = {'__name__': 'c8dyn'}
+    exec("class %s:\n  def __init__(self, c='dflt'):\n    self.c = c\n  def %s(self, arg='dflt'):\n    return arg\n"
+         "  def %s(self, arg='dflt'):\n    return arg\n" % (cname, mname, m2), g)
+    cls = g[cname]
+    mine = [mname, m2] if st['second'] else [mname]
+    cfull = mod + '.' + cname
+    style = st['style'] if k == 0 or ENABLE_METHOD_FIRST_FOR_SEVERAL_CLASSES else METH_STYLES[0]
+    ctx.bucket('meth:style:' + style)
+    for m in mine:
+      if style == 'method-with-class-module':
+        gin.register(m, module=cfull)(cls.__dict__[m])
+      else:
+        gin.register(cls.__dict__[m])     # under the function's own module first; registering the class renames it
+    gin.register(cname, module=mod)(cls)
+    new = [{'full': cfull, 'method': None, 'prm': 'c', 'cls': cls}]
+    new += [{'full': cfull + '.' + m, 'method': m, 'prm': 'arg', 'cls': cls} for m in mine]
+    for e in new:
+      entries[e['full']] = e
+      names.add(e['full'])
+      if e['method']:
+        methods.add(e['full'])
+    label = 'after registering the classes %s (methods %s)' % (', '.join(sorted(n for n in names if n not in methods)), '/'.join(mine))
+    ctx.check(family_store(gin) == store, 'store-key-not-canonical', '%s: store %r, model %r' % (label, family_store(gin), store))
+    check_held_references(ctx, gin, held, names, label)
+    sc = st['scope']
+
+    def usable(q, r):   # (the bare name of a method is refused by design: not judged)
+      return not (len(r) == 1 and r[0] in methods and '.' not in q)
+
+    # (a) the universe of spellings: about five of them, one route each
+    qs = history_queries(names, cname)
+    for j, q in enumerate(qs):
+      if (j + st['qi']) % ((len(qs) + 4) // 5) and q != cname + '.' + mname:    # (`Class.method`: always)
+        continue
+      r = models.resolve_suffix(names, q)
+      if not usable(q, r):
+        continue
+      if len(r) == 1:
+        read_entry(ctx, gin, entries[r[0]], q, sc, METH_ROUTES[(st['qi'] + j) % 4], store, label)
+      elif r:
+        ctx.bucket('meth:ambiguous')
+        if any(n in methods for n in r) and q.count('.') == 1:
+          ctx.bucket('meth:class-method-ambiguous')
+        probe_ambiguous(ctx, gin, sc, q, 'arg' if r[0] in methods else 'c', pick=st['qi'] + j)
+      else:
+        ctx.bucket('meth:unknown')
+        probe_unknown(ctx, gin, sc, q, 'arg', pick=st['qi'] + j)
+    # (b) a value written through one unambiguous spelling of one entry, read through another spelling / API
+    cands = sorted(n for n in names if (n in methods) == (st['on'] != 'class') and (st['on'] != 'second' or n.endswith('.' + m2)))
+    cands = cands or sorted(methods)
+    ent = entries[cands[st['member'] % len(cands)]]
+    good = [q for q in spellings(ent['full'], names)[0] if usable(q, [ent['full']])]
+    ws, rs = good[st['wi'] % len(good)], good[st['ri'] % len(good)]
+    value = ['val', k, st['wi']]
+    ctx.bucket('meth:write:' + ('method' if ent['method'] else 'class'))
+    try:
+      write_binding(gin, st['write'], sc, ws, ent['prm'], value)
+    except Exception as e:  # pylint: disable=broad-except
+      ctx.check(False, 'unambiguous-spelling-rejected', '%s: writing %s.%s (= %s) via %s raised %s: %s' %
+                (label, ws, ent['prm'], ent['full'], st['write'], type(e).__name__, str(e)[:200]))
+      break
+    store.setdefault((sc, ent['full']), {})[ent['prm']] = value
+    got = family_store(gin)
+    ctx.check(set(got) == set(store) and all(teq_unordered_dict(got[key], store[key]) for key in store), 'store-key-not-canonical',
+              '%s: after writing %s.%s via %s the store is %r, model %r' % (label, ws, ent['prm'], st['write'], got, store))
+    read_entry(ctx, gin, ent, rs, sc, st['read'], store, label)
+    # (c) references through every usable spelling (methods: not evaluated, there is no instance to call them on)
+    hold_references(ctx, gin, held, str(k), ent['full'], partial_first(good, st['qi']), st['qi'], evaluable=ent['method'] is None)
+    shape.append((style == METH_STYLES[0], st['second'], st['on'], st['write'], st['read'], ws.count('.'), bool(sc)))
+    # (d) the names reported for the entries
+    final = k == len(case['mods']) - 1
+    if not final and k != st['qi'] % 2:
+      continue
+    texts = [('config-str', gin.config_str())]
+    check_sections(ctx, texts[0][1], 'config-str', names, (cname, mname, m2), entries=list(store), methods=methods)
+    if final:
+      for e in entries.values():   # every entry is used once, so that the operative configuration lists all of them
+        read_entry(ctx, gin, e, e['full'], '', 'call-via-class', store, label)
+      texts.append(('operative-config-str', gin.operative_config_str()))
+      check_sections(ctx, texts[1][1], 'operative-config-str', names, (cname, mname, m2), methods=methods)
+    check_held_references(ctx, gin, held, names, label + ' (reports)', texts=texts, reparse=final)
+  ctx.fp('methods', tuple(m.count('.') for m in case['mods']),
+         sum(1 for a in names for b in names if a != b and b.endswith('.' + a)), tuple(shape))
+  ctx.sample({'kind': 'methods', 'names': sorted(names)}, cap=4)
+  gin.clear_config()
+
+
+# ---------------------------------------------------------------------------
 # Constants: the same suffix rule, through `%name`, query_parameter and get_bindings.
 
 CONST_LAYOUTS = [(['pa.one', 'pb.two'], 'pc.one'), (['pa.one', 'pb.one'], 'pc.two'), (['pa.one', 'pa.two', 'pb.one'], None),
                  (['one', 'two'], 'three'), (['x.pa.one', 'y.pa.one', 'pb.two'], 'z.pb.two'), (['pa.one'], 'pb.one'),
-                 (['pa.one', 'pb.two'], None)]
+                 (['pa.one', 'pb.two'], None),
+                 # overlapping names: one complete name is a dotted suffix of another.  Shorter first is accepted anywhere;
+                 # longer first only in interactive mode (see define)
+                 (['one', 'pa.one'], 'x.pa.one'), (['pa.one', 'one'], None), (['x.pa.one', 'pa.one', 'pb.two'], 'one'),
+                 (['pa.one', 'pb.one', 'one'], 'two'), (['y.pa.one', 'pb.two'], 'pa.one')]
+CONST_CLEARS = [None, None, 'mid', 'end', 'both', 'constants']
 CONST_VALUES = [1, 'two', [3, 'x'], 0, '', 2.5, {'k': 1}, False]
 CONST_ROUTES = ['query', 'macro-flat', 'macro-block', 'macro-list', 'macro-scoped', 'get_bindings']
 
 
 def gen_const_case(rng):
   mods, later = rng.choice(CONST_LAYOUTS)
+  clear = rng.choice(CONST_CLEARS)
+  if 'one' in mods or later in ('one', 'pa.one'):   # overlapping names: mostly with a clear somewhere
+    clear = clear or rng.choice(CONST_CLEARS)
   return {'kind': 'const', 'mods': list(mods), 'later': later, 'define': rng.choice(['constant', 'constant', 'enum']),
-          'values': rng.sample(range(len(CONST_VALUES)), 4), 'rot': rng.randrange(60)}
+          'values': rng.sample(range(len(CONST_VALUES)), 4), 'rot': rng.randrange(60), 'clear': clear}
 
 
 def read_constant(gin, route, q):
@@ -829,26 +1125,61 @@ def run_const(ctx, case):
   ctx.bucket('const:define:' + case['define'])
 
   def define(mod, i):
-    if case['define'] == 'enum':
-      cls = enum.Enum(last, {'A': i + 1, 'B': 'b%d' % i})
-      gin.constants_from_enum(cls, module=mod)
-      consts['%s.%s.A' % (mod, last)] = cls.A
-      consts['%s.%s.B' % (mod, last)] = cls.B
-    else:
-      v = CONST_VALUES[case['values'][i % len(case['values'])]]
-      gin.constant('%s.%s' % (mod, last), v)
-      consts['%s.%s' % (mod, last)] = v
+    full = '%s.%s' % (mod, last)
+    # a new name that is a dotted suffix of an existing constant is only accepted in interactive mode
+    shadows = bool(models.resolve_suffix(set(consts), full + ('.A' if case['define'] == 'enum' else '')))
+    if shadows:
+      ctx.bucket('const:name-suffix-of-earlier-constant')
+    elif any((full + ('.A' if case['define'] == 'enum' else '')).endswith('.' + n) for n in consts):
+      ctx.bucket('const:earlier-constant-suffix-of-name')
+    with (gin.config.interactive_mode() if shadows else contextlib.nullcontext()):
+      if case['define'] == 'enum':
+        cls = enum.Enum(last, {'A': i + 1, 'B': 'b%d' % i})
+        gin.constants_from_enum(cls, module=mod)
+        consts[full + '.A'] = cls.A
+        consts[full + '.B'] = cls.B
+      else:
+        v = CONST_VALUES[case['values'][i % len(case['values'])]]
+        gin.constant(full, v)
+        consts[full] = v
+
+  def clear(when):
+    """clear_config() is documented to keep the constants: every spelling resolves as before (whether the call itself
+    succeeds is not this property's business; what the names mean afterwards is)."""
+    if case.get('clear') not in (when, 'both'):
+      return
+    ctx.bucket('const:clear-config-keeps')
+    if any(a != b and a.endswith('.' + b) for a in consts for b in consts):
+      ctx.bucket('const:clear-config-keeps-overlapping-names')
+    try:
+      gin.clear_config()
+    except Exception:  # pylint: disable=broad-except
+      ctx.count('const_clear_raised')
+    check_constants(ctx, gin, consts, last, 'constants %r (defined in this order) after clear_config()' % list(consts), case['rot'] + 2)
 
   for i, mod in enumerate(case['mods']):
     define(mod, i)
   check_constants(ctx, gin, consts, last, 'constants %r' % sorted(consts), case['rot'])
+  clear('mid')
   if case['later']:
     before = {q for n in consts for q in suffixes(n) if len(models.resolve_suffix(set(consts), q)) == 1}
     define(case['later'], len(case['mods']))
     if any(len(models.resolve_suffix(set(consts), q)) > 1 for q in before):
       ctx.bucket('const:spelling-became-ambiguous')
     check_constants(ctx, gin, consts, last, 'constants %r (the last defined later)' % sorted(consts), case['rot'] + 1)
-  ctx.fp('const', tuple(case['mods']), case['later'], case['define'])
+  clear('end')
+  if case.get('clear') == 'constants':
+    # the clear that removes them: afterwards every spelling is unknown
+    ctx.bucket('const:clear-removes')
+    gin.clear_config(clear_constants=True)
+    for j, q in enumerate(sorted({sfx for n in consts for sfx in suffixes(n)})):
+      route = CONST_ROUTES[(case['rot'] + j) % 6]
+      try:
+        got = ('ok', read_constant(gin, route, q))
+      except Exception as e:  # pylint: disable=broad-except
+        got = ('raised', type(e).__name__)
+      ctx.check(got[0] == 'raised', 'unknown-constant-accepted', 'after clear_config(clear_constants=True): %s of %r -> %r' % (route, q, got))
+  ctx.fp('const', tuple(case['mods']), case['later'], case['define'], case.get('clear'))
   ctx.sample({'kind': 'const', 'names': sorted(consts)}, cap=8)
   gin.clear_config(clear_constants=True)
 
@@ -860,6 +1191,9 @@ def iter_cases(ctx, rng, n):
       continue
     if i % 40 == 7:
       yield gen_const_case(rng)
+      continue
+    if i % 80 == 27:
+      yield gen_methods_case(rng)
       continue
     if i % 20 == 19:
       yield {'kind': 'api-special', 'which': rng.choice(['explicit-macro-reference', 'class-registered-twice', 'method-with-class-module']), 'n': rng.randrange(1 << 30),
@@ -926,6 +1260,8 @@ def run_case(ctx, case):
     run_history(ctx, case)
   elif case['kind'] == 'const':
     run_const(ctx, case)
+  elif case['kind'] == 'methods':
+    run_methods(ctx, case)
   else:
     run_api(ctx, case)
 
@@ -940,7 +1276,8 @@ LEVEL_TEXT = ('Runtime monitor with a suffix-resolution reference model evaluate
               'write/read pairs through different spellings; the thorough tier enumerates a 14-name universe exhaustively '
               '(all subsets <=4 x insertion orders x single pops). Also at API level: families registered one member at a time '
               '(every spelling re-judged after every registration, a model of the binding store), constants, the object spelling, '
-              'the names reported by config_str/operative_config_str.')
+              'the names reported by config_str/operative_config_str for sections and for stored references, classes with '
+              'registered methods under colliding names, overlapping constants across clear_config.')
 LEVEL_NOTE = 'Trusted: the 4-line suffix model. Exhaustive only inside the stated small scope; larger name sets are sampled.'
 TECHNIQUE = 'runtime reference-model monitor after every operation of generated histories + exhaustive small-scope enumeration'
 DESIGN_REF = 'DESIGN.md section 4, C08'
